@@ -22,6 +22,11 @@ pub struct BuildCfg {
     pub expect_failure: bool,
     /// the stand-in pack fails this build (scripted through an env pair)
     pub pack_fails: bool,
+    /// Some((i, by_id)): a reference to the crate's own buildpack is inserted at position i of
+    /// the buildpack list (`CurrentCrate`, or `WorkspaceBuildpack(<its id>)` when by_id);
+    /// libcnb-test compiles and packages it into a temporary directory first
+    #[serde(default)]
+    pub own_buildpack: Option<(usize, bool)>,
 }
 
 #[derive(Clone, Debug, PartialEq, Serialize, Deserialize)]
@@ -82,6 +87,9 @@ pub struct Scenario {
     /// a preprocessor then fails while making its private copy
     #[serde(default)]
     pub fixture_uncopyable: bool,
+    /// the crate under test does not compile (packaging its buildpack fails)
+    #[serde(default)]
+    pub crate_broken: bool,
 }
 
 const TRICKY: [&str; 14] = [
@@ -153,7 +161,12 @@ fn gen_build(r: &mut Rng, depth: u32) -> BuildNode {
         app_dir_via_setter: r.chance(1, 3),
         expect_failure,
         pack_fails,
+        own_buildpack: None,
     };
+    let mut cfg = cfg;
+    if r.chance(1, 6) {
+        cfg.own_buildpack = Some((r.usize(cfg.buildpacks.len() + 1), r.bool()));
+    }
     let mut steps = Vec::new();
     let n = r.usize(4);
     for _ in 0..n {
@@ -210,6 +223,7 @@ pub fn generate(seed: u64) -> Scenario {
             _ => 0,
         },
         fixture_uncopyable: r2.chance(1, 8),
+        crate_broken: r2.chance(1, 6),
     }
 }
 
